@@ -19,7 +19,9 @@ type Step struct {
 	Op     *Op    `json:"op,omitempty"`
 	Ops    []Op   `json:"ops,omitempty"`
 	Inputs []BStr `json:"inputs,omitempty"`
-	Rnd    []int  `json:"rnd,omitempty"`
+	// Conform[i]: a document generated from the model of live policy i's history (check steps)
+	Conform []BStr `json:"conform,omitempty"`
+	Rnd     []int  `json:"rnd,omitempty"`
 }
 
 var ruleOpKinds = map[string]bool{"AllowElements": true, "AllowElementsMatching": true, "AllowAttrs": true, "AllowNoAttrs": true, "AllowStyles": true, "AllowURLSchemesMatching": true,
@@ -65,6 +67,10 @@ func flipOpNames(o Op, rnd *rndSrc) Op {
 	}
 	for i := range o2.Attrs {
 		o2.Attrs[i] = flipCase(o2.Attrs[i], rnd)
+	}
+	// one chained expression or separate statements on the builder: same rules either way
+	if (o2.Kind == "AllowAttrs" || o2.Kind == "AllowStyles") && rnd.next(3) == 0 {
+		o2.Stmt = !o2.Stmt
 	}
 	return o2
 }
@@ -139,6 +145,17 @@ func genC17(t *rapid.T) *Case {
 		}
 		return ins
 	}
+	drawConform := func() []BStr {
+		var docs []BStr
+		for _, p := range pols {
+			doc, _, _, ok := genConform(t, BuildModel(histSpec(p.base, p.hist)))
+			if !ok {
+				doc = ""
+			}
+			docs = append(docs, BStr(doc))
+		}
+		return docs
+	}
 	drawRnd := func() []int {
 		return rapid.SliceOfN(rapid.IntRange(0, 1000), 8, 8).Draw(t, "rnd")
 	}
@@ -165,10 +182,10 @@ func genC17(t *rapid.T) *Case {
 		case 7:
 			c.Steps = append(c.Steps, Step{Kind: "sanitize", P: rapid.IntRange(0, len(pols)-1).Draw(t, "pi"), Inputs: drawInputs()})
 		default:
-			c.Steps = append(c.Steps, Step{Kind: "check", Inputs: drawInputs(), Rnd: drawRnd()})
+			c.Steps = append(c.Steps, Step{Kind: "check", Inputs: drawInputs(), Conform: drawConform(), Rnd: drawRnd()})
 		}
 	}
-	c.Steps = append(c.Steps, Step{Kind: "check", Inputs: drawInputs(), Rnd: drawRnd()})
+	c.Steps = append(c.Steps, Step{Kind: "check", Inputs: drawInputs(), Conform: drawConform(), Rnd: drawRnd()})
 	return c
 }
 
@@ -279,6 +296,19 @@ func checkC17(c *Case, r *Rec) error {
 						dropped = Build(histSpec(lp.base, less), nil)
 					}
 				}
+				// (e) lower bound: a document written in the vocabulary of the policy's own history passes
+				// unchanged (modulo attributes the policy adds), whatever order the history was given in
+				// and whatever other instances did
+				if pi < len(st.Conform) && strings.TrimSpace(string(st.Conform[pi])) != "" {
+					if m == nil {
+						m = BuildModel(histSpec(lp.base, lp.hist))
+					}
+					doc := string(st.Conform[pi])
+					outDoc := lp.p.Sanitize(doc)
+					if _, err := sameModuloForced(m, doc, outDoc); err != nil {
+						return violation(outDoc, "C17(e): policy #%d with history %s does not pass a document of its own vocabulary: %v (document %s)", pi, histSpec(lp.base, lp.hist).String(), err, q(trunc(doc, 200)))
+					}
+				}
 				for _, inb := range st.Inputs {
 					in := string(inb)
 					got := lp.p.Sanitize(in)
@@ -303,7 +333,11 @@ func checkC17(c *Case, r *Rec) error {
 						return violation(got, "C17(b): history %s returns %s, its reordered/case-flipped/duplicated equivalent %s returns %s (input %s)",
 							histSpec(lp.base, lp.hist).String(), q(trunc(got, 150)), histSpec(lp.base, nfOps).String(), q(trunc(n, 150)), q(trunc(in, 150)))
 					}
-					if dropped != nil {
+					if dropped != nil && hasTagNamed(inToks, m.skip) {
+						// not monotone on inputs with skip-content elements: whether a (possibly stray) tag of such
+						// an element moves the skip counter depends on whether the element is allowed
+						r.Excluded("c_not_asserted_on_inputs_with_skip_content_elements")
+					} else if dropped != nil {
 						full, less := countKept(got), countKept(dropped.Sanitize(in))
 						keys := make([]string, 0, len(less))
 						for k := range less {
